@@ -167,13 +167,23 @@ class SplineInterpolator1D():
             for i, x in enumerate(xgrid):
                 span, offset = cu_find_span(xmin, xmax, dx, x, ncells)
                 cu_basis_funs(span, offset, basis)
-                mat[i, js(span)] = basis
+                if periodic:
+                    # a basis function and its periodic image may share a
+                    # column (ncells == degree): the values must be summed
+                    np.add.at(mat[i], js(span), basis)
+                else:
+                    mat[i, js(span)] = basis
         else:
             # Fill in non-zero matrix values
             for i, x in enumerate(xgrid):
                 span = nu_find_span(knots, degree, x)
                 nu_basis_funs(knots, degree, x, span, basis)
-                mat[i, js(span)] = basis
+                if periodic:
+                    # a basis function and its periodic image may share a
+                    # column (ncells == degree): the values must be summed
+                    np.add.at(mat[i], js(span), basis)
+                else:
+                    mat[i, js(span)] = basis
 
         return mat
 
